@@ -14,8 +14,8 @@ import CaddyModel.C01.Lemmas
 namespace CaddyModel.C01
 open CaddyModel.Lifecycle
 
-def w1 : Cfg := ⟨0, [], [⟨3, 1, 0, [0], []⟩]⟩
-def w2 : Cfg := ⟨0, [], [⟨3, 2, 0, [2, 1], []⟩]⟩
+def w1 : Cfg := ⟨0, [], [⟨3, 1, 0, [0], []⟩], ⟨0, 0⟩⟩
+def w2 : Cfg := ⟨0, [], [⟨3, 2, 0, [2, 1], []⟩], ⟨0, 0⟩⟩
 def wEnv1 : Env := ⟨true, false, 0, [], [3], [3]⟩
 def wEnv2 : Env := ⟨true, false, 0, [1], [3], [3]⟩
 def wState : State := (step State.init (.load w1 wEnv1)).1
@@ -30,5 +30,39 @@ theorem load_atomic_old_code_fails :
     (startApp 1 wEnv2.blocked ⟨3, 2, 0, [2, 1], []⟩ wState).2 = false ∧
     answers (startApp 1 wEnv2.blocked ⟨3, 2, 0, [2, 1], []⟩ wState).1 = [(0, 1)] ∧
     (changeTo w2 wEnv2 wState).2 = .errStart ∧ obs (changeTo w2 wEnv2 wState).1 = obs wState := by decide
+
+/-! ### the process-wide default storage (certmagic.Default.Storage) — finding F21
+
+Full statement (kept visible):
+  ∀ s c e, (changeTo c e s).2.accepted = false → (changeTo c e s).1.dstor = s.dstor
+  ∀ s c e, (validate c e s).1.dstor = s.dstor
+provisionContext makes the new configuration's storage the process default BEFORE the apps are
+provisioned. Only its own deferred rollback puts it back, and only `if currentCtx.cfg != nil`; the
+later failure paths of run() (admin routers, Start, post-start) and Validate() do not.
+Protocol lines (Driver.witnessLines), replayed on the real code on every run. -/
+
+/-- probe app 0 and storage module 1; the app's Provision fails -/
+def wSt1 : Cfg := ⟨0, [], [⟨0, 1, 3, [], []⟩], ⟨0, 1⟩⟩
+/-- a healthy config without a storage module -/
+def wSt0 : Cfg := ⟨0, [], [⟨0, 1, 0, [], []⟩], ⟨0, 0⟩⟩
+/-- storage module 1, the app fails in Start -/
+def wSt2 : Cfg := ⟨0, [], [⟨0, 2, 5, [], []⟩], ⟨0, 1⟩⟩
+/-- storage module 2, healthy (to be validated) -/
+def wSt3 : Cfg := ⟨0, [], [⟨0, 3, 0, [], []⟩], ⟨0, 2⟩⟩
+def wEnvS : Env := ⟨true, false, 0, [], [0], [0]⟩
+
+/-- the negation of the full statement, three ways: (a) the very first load is rejected while
+    provisioning an app — nothing is current, so nothing is restored; (b) over a running config, a
+    load rejected at Start; (c) over a running config, a successful Validate. In each case the
+    default storage is the rejected / validated configuration's. -/
+theorem default_storage_full_fails :
+    ((changeTo wSt1 wEnvS State.init).2 = .errProvision ∧ (changeTo wSt1 wEnvS State.init).1.dstor = 1 ∧
+      State.init.dstor = 0) ∧
+    ((runOps State.init [.load wSt0 wEnvS]).dstor = 0 ∧
+      (changeTo wSt2 wEnvS (runOps State.init [.load wSt0 wEnvS])).2 = .errStart ∧
+      (changeTo wSt2 wEnvS (runOps State.init [.load wSt0 wEnvS])).1.dstor = 1) ∧
+    ((validate wSt3 wEnvS (runOps State.init [.load wSt0 wEnvS])).2 = .ok ∧
+      (validate wSt3 wEnvS (runOps State.init [.load wSt0 wEnvS])).1.dstor = 2 ∧
+      (validate wSt3 wEnvS (runOps State.init [.load wSt0 wEnvS])).1.rawJSON = some wSt0) := by decide
 
 end CaddyModel.C01
